@@ -41,7 +41,7 @@ TARGETS = [("qiskit", "circuit"), ("qiskit", "gate"), ("cirq", "circuit"), ("cir
 
 
 def budget(tier):
-    return 480 if tier == "quick" else 8000
+    return 480 if tier == "quick" else 30000
 
 
 @st.composite
